@@ -37,7 +37,7 @@ ASSUMPTIONS = [
   "smooth.factor_solve_i / factor_solve_lu and the private kernels forward._map_m2d, _compute_damping_deriv, _euler_damp_qfrc are called exactly as forward.euler/implicit call them",
 ]
 BUDGET = {
-  "quick": dict(examples=400, seconds=150, workers=16),
+  "quick": dict(examples=400, seconds=420, workers=16),
   "thorough": dict(examples=9000, seconds=1500, workers=16),
 }
 
